@@ -43,8 +43,10 @@ def _records(env, p, nch):
     names = [f"c{i}" for i in range(nch)]
     c1 = [env.int(f"ch1_{q}", -1, nch - 1) for q in range(R)]
     c2 = [env.int(f"ch2_{q}", -1, nch - 1) for q in range(R)]
-    p1 = [env.int(f"p1_{q}", -2, None) for q in range(R)]
-    p2 = [env.int(f"p2_{q}", -2, None) for q in range(R)]
+    pdt = p.get("pos_dtype", "int64")
+    phi = None if pdt == "int64" else int(np.iinfo(pdt).max)
+    p1 = [env.int(f"p1_{q}", -2, phi) for q in range(R)]
+    p2 = [env.int(f"p2_{q}", -2, phi) for q in range(R)]
     x1 = [env.int(f"x1_{q}", 0, 3) for q in range(R)]
     x2 = [env.int(f"x2_{q}", 0, 3) for q in range(R)]
     if env.symbolic:
@@ -53,13 +55,13 @@ def _records(env, p, nch):
         # the input spelling of the chromosome column: names, with the unlisted one coded last
         code = lambda c: ite(c < 0, nch, c)  # noqa
         chunk = sympd.DataFrame({
-            "chrom1": SCat(SArr([code(c) for c in c1], "int64"), cats), "pos1": SArr(p1, "int64"),
-            "chrom2": SCat(SArr([code(c) for c in c2], "int64"), cats), "pos2": SArr(p2, "int64"),
+            "chrom1": SCat(SArr([code(c) for c in c1], "int64"), cats), "pos1": SArr(p1, pdt),
+            "chrom2": SCat(SArr([code(c) for c in c2], "int64"), cats), "pos2": SArr(p2, pdt),
             "x1": SArr(x1, "int64"), "x2": SArr(x2, "int64")})
     else:
         nm = lambda c: UNLISTED if c < 0 else names[c]  # noqa
-        chunk = pd.DataFrame({"chrom1": [nm(c) for c in c1], "pos1": np.array(p1, dtype=np.int64),
-                              "chrom2": [nm(c) for c in c2], "pos2": np.array(p2, dtype=np.int64),
+        chunk = pd.DataFrame({"chrom1": [nm(c) for c in c1], "pos1": np.array(p1, dtype=pdt),
+                              "chrom2": [nm(c) for c in c2], "pos2": np.array(p2, dtype=pdt),
                               "x1": np.array(x1, dtype=np.int64), "x2": np.array(x2, dtype=np.int64)})
     return chunk, c1, c2, p1, p2, x1, x2
 
@@ -78,9 +80,14 @@ def records_body(env, p):
     cr = env.mod("create")
     bins, widths, geom, lens = _table(env, p)
     nch = len(p["layout"])
+    if p.get("big_genome"):
+        # a genome longer than 2^31 bp whose chromosomes each fit int32: positions handed over as int32 are legitimate
+        env.assume(and_(lens[0] + lens[1] >= 2**31, *[L < 2**31 for L in lens]))
     chunk, c1, c2, p1, p2, x1, x2 = _records(env, p, nch)
     R = p["R"]
     one_based = bool(env.bool("one_based"))
+    if p.get("big_genome"):
+        env.cover("anchor_beyond_2G", or_(*[and_(c1[q] == 2, p1[q] >= 1) for q in range(R)]))
     action = p["tril"]
     ob = 1 if one_based else 0
     a1 = [x - ob for x in p1]
@@ -169,6 +176,8 @@ def _rec_cases(tier):
                 if tier != "quick":
                     R = 2
                 out.append(dict(t, tril=action, sort=sort, R=R))
+    # positions in a narrow integer type on a genome longer than 2^31 bp (variable-width bins: absolute positions are computed)
+    out.append(dict(layout=[1, 1, 1], shape="any", wmax=2**31 - 1, tril="reflect", sort=False, R=1, pos_dtype="int32", big_genome=True))
     return out
 
 
@@ -240,7 +249,7 @@ def _pix_cases(tier):
 
 
 CHECKS = [
-    Check("records", _rec_cases, records_sym, records_real, labels=("pos_beyond_length", "pos_last_base", "unlisted", "lower_triangle"),
+    Check("records", _rec_cases, records_sym, records_real, labels=("pos_beyond_length", "pos_last_base", "unlisted", "lower_triangle", "anchor_beyond_2G"),
           doc="sanitize_records + aggregate_records on symbolic records over bin tables with symbolic widths (fixed and variable)",
           bounds=dict(quick="R<=2 records, <=2 chromosomes, <=3 bins, positions unbounded from -2", thorough="R=2, <=3 chromosomes, <=4 bins"),
           stubs=("E4 pandas models (categorical recoding, masked assignment, groupby)",),
